@@ -31,7 +31,7 @@ Locked == phase = "locked"
 Room == nsteps < MaxSteps          \* exploration bound only: a step-adding call at the cap is not explored
 
 \* uses(o): o is an outside object
-Uses(o) == /\ phase # "bake_failed"
+Uses(o) == /\ phase \in {"building", "locked"}
            /\ IF Locked THEN Refuse("RuntimeError")
               ELSE IF o \in declared THEN Refuse("ValueError")
               ELSE /\ declared' = declared \cup {o} /\ last' = "ok"
@@ -39,7 +39,7 @@ Uses(o) == /\ phase # "bake_failed"
 
 \* create_container / create_solution / create_solution_from under name n, reading the set `reads` of objects
 Create(n, reads) ==
-           /\ phase # "bake_failed"
+           /\ phase \in {"building", "locked"}
            /\ IF Locked THEN Refuse("RuntimeError")
               ELSE IF ~(reads \subseteq declared) THEN Refuse("ValueError")
               ELSE IF n \in declared THEN Refuse("ValueError")
@@ -50,7 +50,7 @@ Create(n, reads) ==
                    /\ UNCHANGED <<open, ostart, closed, phase>>
 
 \* transfer / remove / dilute / fill_to mentioning the set `objs`
-Step(objs) == /\ phase # "bake_failed"
+Step(objs) == /\ phase \in {"building", "locked"}
               /\ IF Locked THEN Refuse("RuntimeError")
                  ELSE IF ~(objs \subseteq declared) THEN Refuse("ValueError")
                  ELSE /\ Room
@@ -61,27 +61,27 @@ Step(objs) == /\ phase # "bake_failed"
 OnOne(o) == Step({o})
 Transfer(o, p) == o # p /\ Step({o, p})
 
-StartStage(s) == /\ phase # "bake_failed"
+StartStage(s) == /\ phase \in {"building", "locked"}
                  /\ IF Locked THEN Refuse("RuntimeError")
                     ELSE IF s \in ClosedNames \/ open # "none" THEN Refuse("ValueError")
                     ELSE /\ open' = s /\ ostart' = nsteps /\ last' = "ok"
                          /\ UNCHANGED <<declared, touched, closed, nsteps, phase>>
 
-StartReserved == /\ phase # "bake_failed"
+StartReserved == /\ phase \in {"building", "locked"}
                  /\ Refuse(IF Locked THEN "RuntimeError" ELSE "ValueError")
 
-EndStage(s) == /\ phase # "bake_failed"
+EndStage(s) == /\ phase \in {"building", "locked"}
                /\ IF Locked THEN Refuse("RuntimeError")
                   ELSE IF open # s THEN Refuse("ValueError")
                   ELSE /\ open' = "none" /\ ostart' = 0
                        /\ closed' = closed \cup {<<s, ostart, nsteps>>} /\ last' = "ok"
                        /\ UNCHANGED <<declared, touched, nsteps, phase>>
 
-Bake == /\ phase # "bake_failed"
+\* a bake that is refused (a declared object is unused) is a refused call like any other: nothing changes, the
+\* stage stays open, the recipe can be completed and baked later
+Bake == /\ phase \in {"building", "locked"}
         /\ IF Locked THEN Refuse("RuntimeError")
-           ELSE IF touched # declared
-                THEN /\ phase' = "bake_failed" /\ last' = "ValueError"
-                     /\ UNCHANGED <<declared, touched, open, ostart, closed, nsteps>>
+           ELSE IF touched # declared THEN Refuse("ValueError")
            ELSE /\ phase' = "locked" /\ last' = "ok"
                 /\ open' = "none" /\ ostart' = 0
                 /\ closed' = IF open = "none" THEN closed ELSE closed \cup {<<open, ostart, nsteps>>}
@@ -90,10 +90,15 @@ Bake == /\ phase # "bake_failed"
 \* a create_* call under the name of an outside object that is already declared, and uses() of an outside
 \* object carrying the name of an object the recipe created: refusal-only actions (the accepting case of the
 \* first is not explored, the accepting case of the second is Uses on a Declarable)
-ClashCreate(n) == /\ phase # "bake_failed" /\ (Locked \/ n \in declared)
+ClashCreate(n) == /\ (Locked \/ n \in declared)
                   /\ Refuse(IF Locked THEN "RuntimeError" ELSE "ValueError")
-ClashUses(n) == /\ phase # "bake_failed" /\ (Locked \/ n \in declared)
+ClashUses(n) == /\ (Locked \/ n \in declared)
                 /\ Refuse(IF Locked THEN "RuntimeError" ELSE "ValueError")
+
+\* a declaring or step-adding call whose arguments the recipe rejects when it is made (an unreachable concentration, a
+\* malformed unit, a wrong combination of keywords): refusal-only, nothing may be left behind -- in particular not the name
+BadArgs(k) == /\ phase \in {"building", "locked"}
+              /\ Refuse(IF Locked THEN "RuntimeError" ELSE "ValueError")
 
 Outside == Declarable \cup Undeclared
 Next == \/ \E o \in Declarable : Uses(o)
@@ -107,6 +112,7 @@ Next == \/ \E o \in Declarable : Uses(o)
         \/ \E n \in Creatable : ClashUses(n)
         \/ \E s \in StageNames : StartStage(s)
         \/ \E s \in StageNames \cup {"never-started", "all"} : EndStage(s)  \* ending a stage that is not the open one
+        \/ \E k \in {"create", "step"} : BadArgs(k)
         \/ StartReserved              \* "all" is the reserved name of the whole recipe: never a stage of its own
         \/ Bake
 Spec == Init /\ [][Next]_vars
@@ -117,7 +123,7 @@ TypeOK == /\ touched \subseteq declared /\ declared \subseteq Names
           /\ \A c, d \in closed : c[1] = d[1] => c = d
           /\ ostart <= nsteps
           /\ nsteps \in 0..MaxSteps
-          /\ phase \in {"building", "locked", "bake_failed"}
+          /\ phase \in {"building", "locked"}
 LockedIsForever == [][phase = "locked" =>
                         UNCHANGED <<declared, touched, open, ostart, closed, nsteps, phase>>]_vars
 UndeclaredNeverIn == declared \cap Undeclared = {}
